@@ -115,8 +115,8 @@ class Seeds:
             self.keep.append(o)
             self.n += 1
             return o, 2, v, 1000 + self.n
-        if key == "np":
-            o = np.int64(v)
+        if key in ("np", "np32"):
+            o = np.int64(v) if key == "np" else np.int32(v)
             self.keep.append(o)
             self.n += 1
             return o, 2, v, 1000 + self.n
@@ -126,14 +126,29 @@ class Seeds:
         return o, 2, v, tok
 
 
+SEED_POOL = [3, 7, 300, 100000, 100000, 20170519, 2147483600, 4294967200]
+_LAST = [None]          # last integer seed of the plan being generated (neighbouring seeds are derived from it)
+
+
+def near_seed(rng, s):
+    """a seed close to s: s+1, s-1, s+7, or s*(1+3e-6) — different values that np.isclose would call equal for s >~ 1e5"""
+    d = int(rng.choice([1, -1, 7, max(1, int(s * 3e-6)), 0]))
+    return int(min(max(s + d, 0), 2 ** 32 - 1))
+
+
 def rand_seed(rng, allow_none=True):
     r = rng.random()
-    if r < 0.22:
+    if r < 0.18:
         return ["nan"]
-    if r < 0.30 and allow_none:
+    if r < 0.24 and allow_none:
         return ["none"]
-    v = int(rng.choice([3, 7, 100000, 100000, 20260930]))
-    return ["int", v, str(rng.choice(["A", "A", "B", "new", "np"]))]
+    if _LAST[0] is not None and rng.random() < 0.5:
+        v = near_seed(rng, _LAST[0])
+    else:
+        v = int(rng.choice(SEED_POOL))
+    _LAST[0] = v
+    keys = ["A", "A", "B", "new", "np"] + (["np32"] if v < 2 ** 31 else [])
+    return ["int", v, str(rng.choice(keys))]
 
 
 def rand_pos(rng, dim, n, scale=10.0):
@@ -186,6 +201,7 @@ class Stream:
 # --------------------------------------------------------------------------- RandMeth / IncomprRandMeth histories
 
 def gen_plan_rm(rng, cls, n_ops):
+    _LAST[0] = None
     dim = int(rng.integers(2, 4)) if cls == "IncomprRandMeth" else int(rng.integers(1, 4))
     sampling = "auto" if rng.random() < 0.85 else "mcmc"
     spec = rand_spec(rng, dim)
@@ -429,6 +445,7 @@ def rand_mode_no(rng, dim, odd_ok=True):
 
 
 def gen_plan_fo(rng, n_ops):
+    _LAST[0] = None
     dim = int(rng.integers(1, 4))
     spec = rand_spec(rng, dim, cls=str(rng.choice(CLS_PPF + ["Stable"])))
     init = dict(cls="Fourier", spec=spec, period=rand_period(rng, dim), mode_no=rand_mode_no(rng, dim, odd_ok=False),
@@ -931,7 +948,7 @@ def probe_history_vs_fresh(ctx, gs, rng, reps):
         dim = int(rng.integers(2, 4)) if kind == "IncomprRandMeth" else int(rng.integers(1, 4))
         sp = rand_spec(rng, dim, cls=str(rng.choice(CLS_PPF)), nugget=0.0)
         model = build_model(gs, sp)
-        seed0 = int(rng.choice([5, 100000]))
+        seed0 = int(rng.choice([5, 100000, 20170519, 2147483600]))
         if kind == "Fourier":
             srf = gs.SRF(model, generator=kind, period=rand_period(rng, dim), mode_no=rand_mode_no(rng, dim, False), seed=seed0)
         else:
@@ -944,7 +961,8 @@ def probe_history_vs_fresh(ctx, gs, rng, reps):
                 apply_mod(srf.model, attr, k)
                 trace.append(["mod", attr, k])
             elif r < 0.65:
-                s = int(rng.choice([5, 100000, 31]))
+                cur = int(srf.generator.seed)
+                s = int(rng.choice([5, 100000, 31, 20170519])) if rng.random() < 0.4 else near_seed(rng, max(cur, 100000))
                 srf(rand_pos(rng, srf.model.dim, 3, 6.0), seed=int(str(s)))
                 trace.append(["call", s])
             elif r < 0.75:
@@ -974,6 +992,130 @@ def probe_history_vs_fresh(ctx, gs, rng, reps):
                                max_abs_diff=float(np.max(np.abs(hist - fresh)))), key="history-vs-fresh:%s" % kind)
 
 
+def probe_seed_change(ctx, gs, rng, reps):
+    """after changing the seed of an EXISTING generator (through SRF.__call__(seed=), generator.seed =, update(seed=),
+    update(model, seed)) the field equals that of a freshly constructed generator with that seed; seeds: equal, neighbouring
+    (s+1, s-1, s+7, s*(1+3e-6)), far apart; held by int / new int object / np.int64 / np.int32; ensemble loops seed = s + i"""
+    routes = ["call", "setter", "update", "update_model"]
+    for rep in range(reps):
+        kind = ["RandMeth", "Fourier", "IncomprRandMeth"][rep % 3]
+        route = routes[(rep // 3) % 4]
+        dim = int(rng.integers(2, 4)) if kind == "IncomprRandMeth" else int(rng.integers(1, 4))
+        sp = rand_spec(rng, dim, cls=str(rng.choice(CLS_PPF)), nugget=0.0)
+        kw = dict(period=rand_period(rng, dim), mode_no=rand_mode_no(rng, dim, False)) if kind == "Fourier" else dict(mode_no=int(rng.choice([6, 12])))
+        s = int(rng.choice([9, 300, 100000, 20170519, 2147483600, 4294967200]))
+        srf = gs.SRF(build_model(gs, sp), generator=kind, seed=s, **kw)
+        pos = rand_pos(rng, dim, 4, 6.0)
+        srf(pos)
+        members = []
+        chain = []
+        for step in range(int(rng.integers(2, 5))):
+            s2 = near_seed(rng, s) if rng.random() < 0.75 else int(rng.choice(SEED_POOL))
+            typ = str(rng.choice(["int", "newint", "np64"] + (["np32"] if s2 < 2 ** 31 else [])))
+            obj = {"int": s2, "newint": int(str(s2)), "np64": np.int64(s2), "np32": np.int32(s2) if s2 < 2 ** 31 else s2}[typ]
+            chain.append([s2, typ])
+            if route == "call":
+                fld = np.array(srf(pos, seed=obj))
+            else:
+                if route == "setter":
+                    srf.generator.seed = obj
+                elif route == "update":
+                    srf.generator.update(seed=obj)
+                else:
+                    srf.generator.update(srf.model, obj)
+                fld = np.array(srf(pos))
+            fresh = np.array(gs.SRF(build_model(gs, sp), generator=kind, seed=int(s2), **kw)(pos))
+            ctx.count(("seed-change", kind, route, dim, typ, "same" if s2 == s else ("near" if abs(s2 - s) <= max(7, s * 1e-5) else "far")),
+                      hist=dict(stage="probe:seed-change", generator=kind, route=route,
+                                seed_relation="same" if s2 == s else ("near" if abs(s2 - s) <= max(7, s * 1e-5) else "far")))
+            got_seed = srf.generator.seed
+            if not (C.bit_equal(fld, fresh) and int(got_seed) == s2):
+                ctx.violation("probe: seed change on an existing generator (%s, %s)" % (kind, route),
+                              "after changing the seed %d -> %d (%s) through %s the field differs from a freshly constructed generator's (stored seed %r)" % (
+                                  s, s2, typ, route, got_seed),
+                              dict(generator=kind, route=route, spec=sp, settings=kw, seed0=s, chain=chain, pos=[C.fhex(x) for x in pos.ravel()],
+                                   max_abs_diff=float(np.max(np.abs(fld - fresh)))), key="seed-change:%s:%s" % (kind, route))
+                break
+            members.append((s2, fld))
+            s = s2
+
+
+MESH_DIRS = {
+    1: ["all", "x", "y", "z", "zy", "yx", [0], [1], [2], [2, 0]],
+    2: ["all", "xy", "xz", "yz", "zx", "yx", "zy", "zyx", [0, 1], [0, 2], [1, 2], [2, 1], [2, 0, 1]],
+    3: ["all", "xyz", "zyx", "yxz", "zxy", [0, 1, 2], [2, 1, 0], [1, 2, 0]],
+}
+
+
+def select_of(direction, dim):
+    if isinstance(direction, str):
+        return list(range(dim)) if direction == "all" else ["xyz".index(c) for c in direction][:dim]
+    return list(direction)[:dim]
+
+
+def probe_mesh(ctx, gs, rng, reps):
+    """Field.mesh on meshio meshes (3-D and 2-D point clouds, several cell blocks) for every documented kind of
+    `direction` (axis strings and index lists, permuted and non-leading axes), points and centroids: the returned field and
+    what is written to point_data / cell_data equal the unstructured evaluation at the selected coordinates"""
+    import meshio
+    for rep in range(reps):
+        kind = ["RandMeth", "Fourier", "IncomprRandMeth"][rep % 3]
+        dim = int(rng.integers(2, 4)) if kind == "IncomprRandMeth" else 1 + (rep // 3) % 3
+        mdim = 3 if (dim == 3 or rng.random() < 0.75) else 2
+        rotated = bool(rng.random() < 0.3) if dim > 1 else False
+        m, srf = make_srf(gs, rng, kind, dim, rotated)
+        gen = srf.generator
+        npts = int(rng.integers(6, 12))
+        pts = rng.uniform(-6, 6, size=(npts, mdim))
+        blocks = [("line", np.array([[k, k + 1] for k in range(int(rng.integers(1, npts - 1)))])),
+                  ("triangle", np.array([rng.choice(npts, 3, replace=False) for _ in range(int(rng.integers(1, 4)))]))]
+        if mdim == 3:
+            blocks.append(("tetra", np.array([rng.choice(npts, 4, replace=False) for _ in range(int(rng.integers(1, 3)))])))
+        if rng.random() < 0.5:
+            blocks.append(("line", np.array([[0, npts - 1]])))
+        dirs = [d for d in MESH_DIRS[dim] if max(select_of(d, dim)) < mdim]
+        direction = dirs[int(rng.integers(len(dirs)))]
+        sel = select_of(direction, dim)
+        mesh = meshio.Mesh(pts, blocks)
+        vec = kind == "IncomprRandMeth"
+        for mode in ("points", "centroids"):
+            if mode == "points":
+                coords = pts.T[sel]
+            else:
+                coords = np.vstack([np.mean(pts[c.data], axis=1) for c in mesh.cells]).T[sel]
+            coords = np.ascontiguousarray(coords)
+            want = np.array(srf.unstructured(coords))
+            tol = field_tolerance(m, gen, coords, kind)
+            name = "f_" + mode
+            case = dict(generator=kind, dim=dim, mesh_dim=mdim, rotated=rotated, spec=repr(m), direction=direction, points=mode,
+                        mesh_points=[C.fhex(x) for x in pts.ravel()], cells=[(t, np.asarray(c).tolist()) for t, c in blocks],
+                        seed=int(gen.seed), tol=tol)
+            ctx.count(("mesh", kind, dim, mdim, str(direction), mode), hist=dict(stage="probe:mesh", generator=kind, dim=dim,
+                                                                                  direction=str(direction), points=mode))
+            try:
+                out = np.array(srf.mesh(mesh, points=mode, direction=direction, name=name))
+            except Exception as e:      # noqa: BLE001  (an unexpected exception is a finding with its input)
+                ctx.violation("probe: Field.mesh (%s, direction=%r)" % (mode, direction), "unexpected %s: %s" % (type(e).__name__, e),
+                              case, key="mesh:%s:exception" % kind)
+                continue
+            if mode == "points":
+                stored = np.asarray(mesh.point_data[name])
+                stored = stored.T if vec else stored
+                shapes_ok = True
+            else:
+                parts = [np.asarray(x) for x in mesh.cell_data[name]]
+                shapes_ok = [len(x) for x in parts] == [len(c.data) for c in mesh.cells]
+                stored = np.concatenate(parts, axis=0)
+                stored = stored.T if vec else stored
+            if not (shapes_ok and eq_tol(out, want, tol) and eq_tol(stored, want, tol)):
+                ctx.violation("probe: Field.mesh vs unstructured evaluation (%s, direction=%r)" % (mode, direction),
+                              "%s: field on the mesh (%s, direction=%r -> axes %r) differs from the unstructured evaluation at the selected coordinates" % (
+                                  kind, mode, direction, sel),
+                              dict(case, max_abs_diff_returned=float(np.max(np.abs(out - want))) if out.shape == want.shape else None,
+                                   max_abs_diff_stored=float(np.max(np.abs(stored - want))) if stored.shape == want.shape else None),
+                              key="mesh:%s:%s" % (kind, mode))
+
+
 def probe_equal_histories(ctx, gs, rng, reps):
     """equal call histories, the seeds held by different objects => equal nugget noise"""
     for rep in range(reps):
@@ -984,7 +1126,7 @@ def probe_equal_histories(ctx, gs, rng, reps):
         steps = [["call", str(rng.choice(["nan", "seed", "other"]))] for _ in range(int(rng.integers(2, 6)))]
         pos = rand_pos(rng, dim, 4, 6.0)
         outs = []
-        for variant in ("same-object", "distinct-objects", "numpy-int"):
+        for variant in ("same-object", "distinct-objects", "numpy-int", "float-valued"):
             s0 = int(str(big))
             kw = dict(period=8.0, mode_no=4) if kind == "Fourier" else dict(mode_no=8)
             srf = gs.SRF(build_model(gs, sp), generator=kind, seed=s0, **kw)
@@ -993,7 +1135,9 @@ def probe_equal_histories(ctx, gs, rng, reps):
                 if st[1] == "nan":
                     res.append(np.array(srf(pos)))
                 elif st[1] == "seed":
-                    s = s0 if variant == "same-object" else (int(str(big)) if variant == "distinct-objects" else np.int64(big))
+                    # float-valued: 100000.0 equals the stored 100000 by value, so nothing is re-seeded (a float that
+                    # differs from the stored seed would reach numpy's RandomState and raise TypeError: not used)
+                    s = {"same-object": s0, "distinct-objects": int(str(big)), "numpy-int": np.int64(big), "float-valued": float(big)}[variant]
                     res.append(np.array(srf(pos, seed=s)))
                 else:
                     res.append(np.array(srf(pos, seed=big + 1)))
@@ -1001,7 +1145,7 @@ def probe_equal_histories(ctx, gs, rng, reps):
                     res.append(np.array(srf(pos, seed=int(str(big)) if variant != "same-object" else s0)))
             outs.append(res)
         ctx.count(("equal-histories", kind, dim, len(steps)), hist=dict(stage="probe:equal-histories", generator=kind, dim=dim))
-        for v, o in zip(("distinct-objects", "numpy-int"), outs[1:]):
+        for v, o in zip(("distinct-objects", "numpy-int", "float-valued"), outs[1:]):
             if not all(C.bit_equal(a, b) for a, b in zip(outs[0], o)):
                 ctx.violation("probe: equal histories, equal seed values in different objects (%s)" % kind,
                               "nugget noise / field depends on the identity of the seed object (%s vs same-object)" % v,
@@ -1089,11 +1233,11 @@ def run(ctx, only_plan=None):
                 (run_plan_fo if only_plan["kind"] == "fo_history" else run_plan_rm)(ctx, gs, drv, only_plan)
             return
         corpus_isclose(ctx, gs, drv)
-        n_hist = 160 if thorough else 14
+        n_hist = 160 if thorough else 40
         n_ops = 14 if thorough else 10
         if drv is not None:
-            tie_calls(ctx, gs, drv, rng, 80 if thorough else 10)
-            tie_compare(ctx, gs, drv, rng, 400 if thorough else 80)
+            tie_calls(ctx, gs, drv, rng, 80 if thorough else 25)
+            tie_compare(ctx, gs, drv, rng, 400 if thorough else 150)
             for h in range(n_hist):
                 for cls in ("RandMeth", "IncomprRandMeth"):
                     plan = gen_plan_rm(rng, cls, n_ops)
@@ -1106,7 +1250,7 @@ def run(ctx, only_plan=None):
                         ctx.dist.setdefault("op", {})
                         ctx.dist["op"][op[0]] = ctx.dist["op"].get(op[0], 0) + 1
                         if op[0] in ("call", "gen.seed", "gen.reset_seed"):
-                            sk = op[1][0] if op[1][0] != "int" else "int:%s:%s" % ("small" if op[1][1] < 257 else "large", op[1][2])
+                            sk = op[1][0] if op[1][0] != "int" else "int:%s:%s" % ("small" if op[1][1] < 257 else ("large" if op[1][1] in SEED_POOL else "large-neighbour"), op[1][2])
                             ctx.dist.setdefault("seed", {})
                             ctx.dist["seed"][sk] = ctx.dist["seed"].get(sk, 0) + 1
                 plan = gen_plan_fo(rng, n_ops)
@@ -1118,9 +1262,11 @@ def run(ctx, only_plan=None):
                 for op in plan["ops"]:
                     ctx.dist.setdefault("op", {})
                     ctx.dist["op"]["F:" + op[0]] = ctx.dist["op"].get("F:" + op[0], 0) + 1
-        probe_locality(ctx, gs, rng, 240 if thorough else 24)
-        probe_history_vs_fresh(ctx, gs, rng, 450 if thorough else 36)
-        probe_equal_histories(ctx, gs, rng, 150 if thorough else 15)
+        probe_locality(ctx, gs, rng, 240 if thorough else 60)
+        probe_mesh(ctx, gs, rng, 600 if thorough else 150)
+        probe_seed_change(ctx, gs, rng, 480 if thorough else 120)
+        probe_history_vs_fresh(ctx, gs, rng, 450 if thorough else 120)
+        probe_equal_histories(ctx, gs, rng, 150 if thorough else 45)
         ctx.notes.append("history correspondence: %s" % json.dumps(STATS))
     finally:
         if drv:
